@@ -257,6 +257,19 @@ mod verif_kani {
         }
     }
 
+    /// stand-ins for tools::ntp_to_system_time / system_time_to_ntp in the two EXT_TIME harnesses: injective on the whole domain, so the harness
+    /// decides WHICH 64-bit NTP value parse_sct hands to the conversion (and push_sct takes from it); the conversions themselves are proved in
+    /// unit `ntp` (Verus), CBMC does not finish on their 64-bit division
+    #[cfg(kani)]
+    pub fn stub_ntp_to_system_time(ntp: u64) -> Result<std::time::SystemTime> {
+        Ok(std::time::UNIX_EPOCH + std::time::Duration::new(ntp >> 29, (ntp & 0x1FFF_FFFF) as u32))
+    }
+    #[cfg(kani)]
+    pub fn stub_system_time_to_ntp(time: std::time::SystemTime) -> Result<u64> {
+        let d = time.duration_since(std::time::UNIX_EPOCH).unwrap();
+        Ok((d.as_secs() << 32) | d.subsec_nanos() as u64)
+    }
+
     // @HARNESS id=C06.alc.ext_time tier=quick kind=K props=C06,C19 timeout=900
     /// EXT_TIME (RFC 5651 section 5.2.2): HET=2 | HEL | Use bits SCT-Hi SCT-Low ERT SLC | the time values present, in that order.
     /// parse_sct against a decoder written from the RFC text, for EVERY extension slice of 4..=20 bytes: the length must be
@@ -267,6 +280,7 @@ mod verif_kani {
     #[kani::unwind(6)]
     #[kani::stub(alloc::fmt::format, stub_format)]
     #[kani::stub(crate::tools::error::FluteError::new, stub_flute_error_new)]
+    #[kani::stub(crate::tools::ntp_to_system_time, stub_ntp_to_system_time)]
     fn ext_time_vs_rfc() {
         h_ext_time_vs_rfc(kani::any(), kani::any());
     }
@@ -305,6 +319,8 @@ mod verif_kani {
     #[kani::unwind(10)]
     #[kani::stub(alloc::fmt::format, stub_format)]
     #[kani::stub(crate::tools::error::FluteError::new, stub_flute_error_new)]
+    #[kani::stub(crate::tools::ntp_to_system_time, stub_ntp_to_system_time)]
+    #[kani::stub(crate::tools::system_time_to_ntp, stub_system_time_to_ntp)]
     fn ext_time_push() {
         h_ext_time_push(kani::any(), kani::any());
     }
